@@ -317,7 +317,59 @@ def run_sweeps(res, tier, seed, want):
     res.cov["samples"] += [{"workspace": wss[i].label, "answer": answers[i][0][:300]} for i in (0, 1, min(9, len(wss) - 1))]
 
 
-PROOF_MODULES = {"C10": ["Glas.Props.C10"], "C20": ["Glas.Props.C20"]}
+def gen_collect_script(rng):
+    """a table of type nodes (children may point anywhere: cycles, self-loops, shared children), some classes merged, and a
+    list of collect requests in random order (with repetitions)"""
+    n = rng.randrange(1, 14)
+    nodes = []
+    for i in range(n):
+        k = rng.random()
+        v = lambda: rng.randrange(n)
+        if k < 0.22:
+            nodes.append(f"nk{rng.randrange(0, 6)}")
+        elif k < 0.34:
+            nodes.append("n" + rng.choice("zbifsy"))
+        elif k < 0.46:
+            nodes.append(f"nl:{v()}")
+        elif k < 0.56:
+            nodes.append(f"nr:{v()},{v()}")
+        elif k < 0.72:
+            nodes.append("nt:" + ",".join(str(v()) for _ in range(rng.randrange(0, 5))))
+        elif k < 0.9:
+            nodes.append("nF:" + ",".join(str(v()) for _ in range(rng.randrange(1, 5))))
+        else:
+            nodes.append(f"na{rng.randrange(0, 4)}:" + ",".join(str(v()) for _ in range(rng.randrange(0, 4))))
+    ops = []
+    for _ in range(rng.randrange(0, n)):
+        ops.append(f"u{rng.randrange(n)},{rng.randrange(n)}")
+    for _ in range(rng.randrange(1, 2 * n + 2)):
+        ops.append(f"c{rng.randrange(n)}")
+    if rng.random() < 0.05:
+        ops.append(rng.choice([f"c{n}", f"u0,{n}", "nq", "nl:", "c", f"nl:{n + 3}"]))     # malformed: both sides say bad-op
+    return ";".join(nodes + ops)
+
+
+def run_collect(res, tier, seed):
+    """M-collect vs `Collector::collect` (hook ide::verif_collect_script): random tables incl. cyclic ones, requests in random order"""
+    rng = random.Random(seed * 29 + 3)
+    n = 3000 if tier == "quick" else 60000
+    reqs = ["collect\t" + gen_collect_script(rng) for _ in range(n)]
+    # the finding's own shape first: a cycle asked for from two ends
+    reqs = ["collect\tnl:1;nt:0,2;nk7;c0;c1;c2", "collect\tnl:1;nt:0,2;nk7;c1;c0;c2", "collect\tnl:0;c0"] + reqs
+    io, mo = common.run_both_chunked(reqs)
+    res.cov["evaluations"] += len(reqs)
+    cyc = 0
+    for rq, a, b in zip(reqs, io, mo):
+        if a != b:
+            res.disagreements.append((rq, a, b))
+        if a.startswith("PANIC") or a.startswith("OOF"):
+            res.add_violation("C10/panic/collector", f"Collector::collect does not answer on a table: {a[:200]}", {"request": rq, "impl": a, "model": b})
+        if "?" in a:
+            cyc += 1
+    res.cov["collect"] = f"{len(reqs)} tables, {cyc} with a cyclic type cut by the placeholder"
+
+
+PROOF_MODULES = {"C10": ["Glas.Props.C10", "Glas.Props.C10Collect"], "C20": ["Glas.Props.C20"]}
 
 
 def run(prop, res, tier, seed):
@@ -329,6 +381,12 @@ def run(prop, res, tier, seed):
     except Broken as b:
         res.add_broken(b.what, b.detail)
     run_sweeps(res, tier, seed, prop)
+    if prop == "C10":
+        run_collect(res, tier, seed)
+        if res.disagreements:
+            rq, a, b = res.disagreements[0]
+            res.add_broken("correspondence model-vs-implementation (M-collect vs Collector::collect through ide::verif_collect_script)",
+                           f"{len(res.disagreements)} disagreeing cases; first: {rq} impl={a!r} model={b!r}")
     if prop == "C20":
         # the ranges as the server SENDS them (after the conversion to line / column in the negotiated position encoding):
         # sliced in the editor's copy they must be the identifier
